@@ -65,14 +65,14 @@ pub fn generate(tier: &str, rng: &mut Rng) -> Vec<Spec> {
         }
         v.push(mk(n, &xs));
     }
-    v
+    add_entry_points(v, rng, &["median"], 80, |rng: &mut Rng| { let l = rng.range(1, 4); (0..l).map(|k| if k == 0 { rng.range(5, 9).to_string() } else { rng.range(-11, 11).to_string() }).collect::<Vec<_>>().join(",") })
 }
 
 fn run<const N: usize>(xs: &[f64], stats: &mut Stats) -> Outcome { run_cf::<N>(xs, None, stats) }
 /// with `cf = Some((pre, split))`: a second filter is fed `pre`, and after `split` samples it is overwritten by
 /// `clone_from(&f)` and continues in f's place
 fn run_cf<const N: usize>(xs: &[f64], cf: Option<(&[f64], usize)>, stats: &mut Stats) -> Outcome {
-    let mut f: Median<f64, N> = Median::default();
+    let mut f: Median<f64, N> = if cf.is_none() { enter(Median::default(), stats, |f: &mut Median<f64, N>, t| { f.filter(t.parse::<i64>().unwrap() as f64); }) } else { Median::default() };
     let acc = |f: &Median<f64, N>| format!("({}, {}, {})", copt(&catch(|| f.min()).ok(), |o| oshow(*o)), copt(&catch(|| f.median()).ok(), |o| oshow(*o)), copt(&catch(|| f.max()).ok(), |o| oshow(*o)));
     let mut ys = vec![]; let mut accs = vec![acc(&f)]; let mut panic = false;
     let mut dst: Median<f64, N> = Median::default();
